@@ -334,6 +334,229 @@ def gen_history(rng, ops):
             "kind": "history-" + hist, "scheme": hscheme + "/" + pscheme, "hist": hist, "hist_extra": extra}
 
 
+# ---- in-place edit histories: ONE host object (and one pattern object) for several consecutive calls ----
+
+def apply_edit(g, e):
+    """apply one edit IN PLACE to the live networkx object"""
+    k = e[0]
+    if k == "add_node":
+        g.add_node(e[1], symbol=e[2])
+    elif k == "remove_node":
+        g.remove_node(e[1])
+    elif k == "add_edge":
+        g.add_edge(e[1], e[2], bond=e[3])
+    elif k == "remove_edge":
+        g.remove_edge(e[1], e[2])
+    elif k == "set_sym":
+        g.nodes[e[1]]["symbol"] = e[2]
+    elif k == "set_bond":
+        g.edges[e[1], e[2]]["bond"] = e[3]
+    else:
+        raise ValueError(e)
+
+
+def _inverse_edit(g, e):
+    """the edit that undoes e on the graph g as it is BEFORE e is applied (None if not simply invertible)"""
+    k = e[0]
+    if k == "add_node":
+        return ("remove_node", e[1])
+    if k == "add_edge":
+        return ("remove_edge", e[1], e[2])
+    if k == "remove_edge":
+        return ("add_edge", e[1], e[2], g.edges[e[1], e[2]]["bond"])
+    if k == "set_sym":
+        return ("set_sym", e[1], g.nodes[e[1]]["symbol"])
+    if k == "set_bond":
+        return ("set_bond", e[1], e[2], g.edges[e[1], e[2]]["bond"])
+    return None
+
+
+def gen_inplace(rng, ops):
+    """HISTORY on one object: a host H1 and a pattern planted in it; one thing the pattern needs is first
+    taken away from the host (a pendant atom, a bond, a symbol, a bond order) giving H0.  The live host
+    object starts as H0 or H1 and is edited IN PLACE between 2-3 consecutive matcher calls (H0 -> H1 creates
+    the embedding, H1 -> H0 destroys it, then possibly back, or an unrelated edit); sometimes the pattern
+    object is edited in place as well.  Every call (any of the three entry points, one mapper object for
+    the whole history) is compared with the model on the objects' contents at that moment."""
+    its = False
+    host = rand_host(rng, 7)
+    if rng.random() < 0.4:                      # ring hosts with hetero atoms as well
+        host = hetero_host(rng)[0]
+    p, pm = plant(rng, host, 5)
+    if len(p) < 2 and host.number_of_nodes() >= 2:
+        p, pm = plant(rng, host, 5)
+    inv = {h: q for q, h in pm.items()}
+    used_edges = [(pm[u], pm[v]) for u, v in p.edges]
+    # the change "needed" edit that turns H0 into H1 (expressed on H1's ids), chosen among what the pattern uses
+    choices = []
+    for (u, v) in used_edges:
+        choices.append(("bond", u, v))
+        choices.append(("order", u, v))
+    for h in pm.values():
+        choices.append(("sym", h))
+        if host.degree(h) == 1 and len(pm) > 1:
+            choices += [("atom", h)] * 4            # add / remove a whole atom: weighted up
+    kind_of = rng.choice(choices) if choices else ("sym", rng.choice(list(host.nodes)))
+    h0 = gens.copy_exact(host)
+    if kind_of[0] == "bond":
+        _, u, v = kind_of
+        fwd = [("add_edge", u, v, host.edges[u, v]["bond"])]
+        h0.remove_edge(u, v)
+    elif kind_of[0] == "order":
+        _, u, v = kind_of
+        o = host.edges[u, v]["bond"]
+        o0 = rng.choice([x for x in (1, 2, 1.5) if x != o])
+        fwd = [("set_bond", u, v, o)]
+        h0.edges[u, v]["bond"] = o0
+    elif kind_of[0] == "sym":
+        _, h = kind_of
+        s1 = host.nodes[h]["symbol"]
+        s0 = rng.choice([x for x in ("C", "O", "N", "S") if x != s1])
+        fwd = [("set_sym", h, s1)]
+        h0.nodes[h]["symbol"] = s0
+    else:
+        _, h = kind_of
+        nb = next(iter(host.neighbors(h)))
+        fwd = [("add_node", h, host.nodes[h]["symbol"]), ("add_edge", nb, h, host.edges[nb, h]["bond"])]
+        h0.remove_node(h)
+    # backward edits (H1 -> H0), computed against H1
+    tmp = gens.copy_exact(host)
+    bwd = []
+    if kind_of[0] == "atom":
+        bwd = [("remove_node", kind_of[1])]
+    else:
+        for e in fwd:
+            if kind_of[0] == "order":
+                bwd.append(("set_bond", e[1], e[2], h0.edges[e[1], e[2]]["bond"]))
+            elif kind_of[0] == "sym":
+                bwd.append(("set_sym", e[1], h0.nodes[e[1]]["symbol"]))
+            else:
+                bwd.append(_inverse_edit(tmp, ("remove_edge", e[1], e[2])) and ("remove_edge", e[1], e[2]))
+    w, ic = rng.choice([("R", True), ("R", True), ("R", False), (None, False)])
+    if w == "R" and rng.random() < 0.3:
+        q = rng.choice(list(p.nodes))
+        p.nodes[q]["symbol"] = "R"
+    # ids / dict orders: relabel consistently
+    start_with_h1 = rng.random() < 0.5
+    g0 = host if start_with_h1 else h0
+    g0r, hscheme, hm = gens.reid(rng, g0, "contig" if rng.random() < 0.5 else None)
+    # nodes of the other graph that are missing from g0 (the removed atom) get a fresh id
+    allnodes = set(host.nodes) | set(h0.nodes)
+    nxt = max(hm.values()) + 1
+    for x in sorted(allnodes):
+        if x not in hm:
+            hm[x] = nxt
+            nxt += 1
+    p2, pscheme, pmm = gens.reid(rng, p)
+
+    def ren(e):
+        k = e[0]
+        if k in ("add_node", "remove_node", "set_sym"):
+            return ("G", (k, hm[e[1]]) + tuple(e[2:]))
+        return ("G", (k, hm[e[1]], hm[e[2]]) + tuple(e[3:]))
+
+    fwd_r = [ren(e) for e in fwd]
+    bwd_r = [ren(e) for e in bwd]
+    nsteps = rng.choice([2, 2, 3])
+    seqs = []
+    # most calls are anchored next to the place that changes (a pattern node whose image is adjacent to the
+    # changed bond / atom, and stays in both H0 and H1), so that consecutive calls look at the same host atoms
+    if kind_of[0] in ("bond", "order"):
+        near = [kind_of[1], kind_of[2]]
+    elif kind_of[0] == "atom":
+        near = list(host.neighbors(kind_of[1]))
+    else:
+        near = [x for x in host.neighbors(kind_of[1])] or [kind_of[1]]
+    near = [inv[h] for h in near if h in inv] or list(pm)
+    focus = rng.choice(near)
+    state_h1 = start_with_h1
+    for k in range(nsteps):
+        edits = []
+        if k > 0:
+            r = rng.random()
+            if r < 0.8:
+                edits = list(bwd_r if state_h1 else fwd_r)
+                state_h1 = not state_h1
+            elif r < 0.9:
+                edits = [("G", ("add_node", nxt, rng.choice(["C", "O"])))]   # unrelated: an isolated new atom
+                nxt += 1
+            if rng.random() < 0.2 and p2.number_of_edges() > 0:              # edit the pattern object as well
+                u, v = rng.choice(list(p2.edges))
+                o = p2.edges[u, v]["bond"]
+                edits.append(("P", ("set_bond", u, v, rng.choice([x for x in (1, 2) if x != o] or [2]))))
+        op = rng.choice(["anchored", "anchored", "sub", "sub_anchor", "to_graph"])
+        q = focus if rng.random() < 0.65 else rng.choice(list(pm))
+        a, pa = hm[pm[q]], pmm[q]
+        if op == "sub":
+            pa = None
+        if op == "to_graph":
+            a = pa = None
+        seqs.append({"edits": edits, "op": op, "a": a, "pa": pa})
+    return {"op": "seq", "G": g0r, "P": p2, "a": None, "pa": None, "w": w, "ic": ic, "cmtn": [],
+            "kind": "inplace-" + kind_of[0], "scheme": hscheme + "/" + pscheme, "steps": seqs}
+
+
+def run_seq(c, msgs):
+    """run the history on ONE live host object and ONE live pattern object; returns ("seq", [out per step]) and
+    stores the objects' contents at the time of each call in c["_snap"]"""
+    g = gens.copy_exact(c["G"])
+    p = gens.copy_exact(c["P"])
+    mapper = PermutationMapper(wildcard=c["w"], ignore_case=c["ic"], can_map_to_nothing=list(c["cmtn"]))
+    outs, snaps = [], []
+    for st in c["steps"]:
+        for target, e in st["edits"]:
+            try:
+                apply_edit(g if target == "G" else p, tuple(e))
+            except (KeyError, nx.NetworkXError):
+                pass                                     # an edit that no longer applies is skipped
+        sg, sp = gens.copy_exact(g), gens.copy_exact(p)
+        snaps.append((sg, sp))
+        try:
+            if st["op"] == "anchored":
+                r = map_anchored_subgraph(g, st["a"], p, st["pa"], mapper)
+            elif st["op"] == "sub":
+                r = map_subgraph(g, st["a"], p, mapper)
+            elif st["op"] == "sub_anchor":
+                r = map_subgraph(g, st["a"], p, mapper, subgraph_anchor=st["pa"])
+            else:
+                r = map_subgraph_to_graph(g, p, mapper)
+            outs.append(("ok", r))
+        except KeyError as e:
+            outs.append(("KeyError", str(e)))
+        except IndexError as e:
+            outs.append(("IndexError", str(e)))
+        if not (gens.graphs_identical(g, sg) and gens.graphs_identical(p, sp)):
+            msgs.append("the matcher mutated one of its argument graphs")
+    c["_snap"] = snaps
+    return ("seq", outs)
+
+
+def seq_subcases(c, out):
+    """the calls of a history as ordinary single cases on the snapshots"""
+    outs = out[1] if out is not None else [None] * len(c["steps"])
+    for i, (st, (sg, sp), o) in enumerate(zip(c["steps"], c["_snap"], outs)):
+        yield i, {"op": st["op"], "G": sg, "P": sp, "a": st["a"], "pa": st["pa"], "w": c["w"], "ic": c["ic"],
+                  "cmtn": c["cmtn"], "kind": c["kind"], "scheme": c["scheme"]}, o
+
+
+def _idx(expr, i):
+    import re
+    return re.sub(r"\$(G|P|out)\b", lambda m: "$%s%d" % (m.group(1), i), expr)
+
+
+def seq_defs(c, out):
+    defs = {"mp": mapper_term(c)}
+    for i, sc, o in seq_subcases(c, out):
+        defs["G%d" % i] = ct.graph(sc["G"])
+        defs["P%d" % i] = ct.graph(sc["P"])
+        defs["out%d" % i] = out_term(sc, o)
+    return defs
+
+
+def seq_expr(c, out, fn):
+    return " && ".join("(%s)" % _idx(fn(sc, o), i) for i, sc, o in seq_subcases(c, out)) or "true"
+
+
 def gen_cases(rng, ops, nmax=8):
     """one random draw: usually one case, two for the families emitted with both adjacency orders"""
     r = rng.random()
@@ -341,6 +564,8 @@ def gen_cases(rng, ops, nmax=8):
         return gen_hetero(rng, ops)
     if r < 0.15:
         return [gen_history(rng, ops)]
+    if r < 0.23:
+        return [gen_inplace(rng, ops)]
     return [gen_case(rng, ops, nmax)]
 
 
@@ -766,6 +991,8 @@ def run_impl(c):
 
 
 def _run_impl(c, msgs):
+    if c["op"] == "seq":
+        return run_seq(c, msgs)
     if c["op"] == "multi":
         mapper = PermutationMapper(wildcard=c["w"], ignore_case=c["ic"], can_map_to_nothing=list(c["cmtn"]))
         outs, mutated = [], False
@@ -867,6 +1094,9 @@ def out_term(c, out):
 
 
 def model_expr(c):
+    if c["op"] == "seq":
+        es = [_idx(model_expr(sc), i) for i, sc, _ in seq_subcases(c, None)]
+        return es[0] if len(es) == 1 else "(" + ", ".join(es) + ")"
     if c["op"] == "multi":
         return "map (fun Ga => map (fun P => map_subgraph (fst Ga) P $mp (snd Ga) %s) $Ps) $Gs" % ct.opt(c.get("pa"), ct.z)
     if c["op"] == "anchored":
@@ -879,6 +1109,8 @@ def model_expr(c):
 
 
 def agree_expr(c):
+    if c["op"] == "seq":
+        return seq_expr(c, None, lambda sc, o: agree_expr(sc))
     if c["op"] == "multi":
         return "list_eqb (list_eqb (result_eqb sub_out_eqb)) (%s) $out" % model_expr(c)
     eqb = {"anchored": "match_out_eqb", "sub": "sub_out_eqb", "sub_anchor": "sub_out_eqb", "to_graph": "Bool.eqb"}[c["op"]]
@@ -906,11 +1138,15 @@ WF = "wfb $G && wfb $P"      # the theorems' standing hypotheses (true of every 
 
 def spec3_expr(c, out):
     """C03 on the implementation's output (only for can_map_to_nothing = [], all nodes carrying symbols)"""
+    if c["op"] == "seq":
+        return seq_expr(c, out, spec3_expr)
     e = _spec3_expr(c, out)
     return e if e == "true" else "(%s) && (%s)" % ("true" if c["op"] == "multi" else WF, e)
 
 
 def spec4_expr(c, out):
+    if c["op"] == "seq":
+        return seq_expr(c, out, spec4_expr)
     e = _spec4_expr(c, out)
     return e if e == "true" else "(%s) && (%s)" % ("true" if c["op"] == "multi" else WF, e)
 
@@ -962,6 +1198,8 @@ def _spec4_expr(c, out):
 
 
 def base_defs(c, out):
+    if c["op"] == "seq":
+        return seq_defs(c, out)
     if c["op"] == "multi":
         return {"Gs": "(%s : list (graph * Z))" % ct.lst(["(%s, %s)" % (ct.graph(h), ct.z(a)) for h, a in c["Hs"]]),
                 "Ps": "(%s : list graph)" % ct.lst([ct.graph(p) for p in c["Ps"]]),
@@ -973,6 +1211,11 @@ def base_defs(c, out):
 # bookkeeping
 
 def describe(c):
+    if c["op"] == "seq":
+        return {"op": "seq", "G": ct.graph_py(c["G"]), "P": ct.graph_py(c["P"]), "w": c["w"], "ic": c["ic"],
+                "cmtn": list(c["cmtn"]), "kind": c["kind"], "scheme": c["scheme"],
+                "steps": [{"edits": [[t, list(e)] for t, e in st["edits"]], "op": st["op"], "a": st["a"], "pa": st["pa"]}
+                          for st in c["steps"]]}
     if c["op"] == "multi":
         return {"op": "multi", "Hs": [[ct.graph_py(h), a] for h, a in c["Hs"]], "Ps": [ct.graph_py(p) for p in c["Ps"]], "pa": c.get("pa"),
                 "w": c["w"], "ic": c["ic"], "cmtn": list(c["cmtn"]), "kind": c["kind"], "scheme": c["scheme"]}
@@ -982,6 +1225,12 @@ def describe(c):
 
 
 def from_json(d):
+    if d["op"] == "seq":
+        return {"op": "seq", "G": ct.graph_from_py(d["G"]), "P": ct.graph_from_py(d["P"]), "a": None, "pa": None,
+                "w": d["w"], "ic": d["ic"], "cmtn": list(d["cmtn"]), "kind": d.get("kind", "replay"),
+                "scheme": d.get("scheme", "replay"),
+                "steps": [{"edits": [(t, tuple(tuple(x) if isinstance(x, list) else x for x in e)) for t, e in st["edits"]],
+                           "op": st["op"], "a": st["a"], "pa": st["pa"]} for st in d["steps"]]}
     if d["op"] == "multi":
         ps = [ct.graph_from_py(p) for p in d["Ps"]]
         hs = [(ct.graph_from_py(h), a) for h, a in d["Hs"]]
@@ -994,6 +1243,8 @@ def from_json(d):
 
 
 def describe_out(out):
+    if out[0] == "seq":
+        return {"status": "seq", "outputs": [describe_out(o) for o in out[1]]}
     if out[0] == "multi":
         return {"status": "multi", "outputs": [[describe_out(o) for o in row] for row in out[1]]}
     if out[0] != "ok":
@@ -1008,6 +1259,9 @@ def describe_out(out):
 
 
 def key(c):
+    if c["op"] == "seq":
+        return ("seq", ct.graph_canon(c["G"]), ct.graph_canon(c["P"]), c["w"], c["ic"],
+                repr([(st["edits"], st["op"], st["a"], st["pa"]) for st in c["steps"]]))
     if c["op"] == "multi":
         return ("multi", tuple((ct.graph_canon(h), a) for h, a in c["Hs"]), tuple(ct.graph_canon(p) for p in c["Ps"]),
                 c["w"], c["ic"], c.get("pa"))
@@ -1016,6 +1270,8 @@ def key(c):
 
 
 def verdict(out):
+    if out[0] == "seq":
+        return "/".join(verdict(o) for o in out[1])
     if out[0] == "multi":
         vs = set(verdict(o) for row in out[1] for o in row)
         return "mixed" if len(vs) > 1 else vs.pop()
@@ -1030,12 +1286,24 @@ def verdict(out):
 
 
 def nontrivial(c, out):
+    if c["op"] == "seq":
+        return len(c["P"]) >= 2
     if c["op"] == "multi":
         return True
     return out[0] == "ok" and len(c["P"]) >= 2 and len(c["G"]) >= 2
 
 
 def classes(c, out):
+    if c["op"] == "seq":
+        yield "op=seq"
+        yield "kind=" + c["kind"]
+        yield "history=" + verdict(out)
+        yield "mapper=%s/%s" % (c["w"], "ic" if c["ic"] else "cs")
+        for st in c["steps"]:
+            yield "history:call=" + st["op"]
+            for t, e in st["edits"]:
+                yield "history:edit=%s.%s" % (t, e[0])
+        return
     if c["op"] == "multi":
         yield "op=multi"
         yield "kind=" + c["kind"]
